@@ -70,6 +70,7 @@ def run_unit(prop, u, tier, scratch, keep=False):
         for k, v in u.get('types', {}).items(): cmd += ['--type', '%s=%s' % (k, v)]
         for k, v in u.get('globals', {}).items(): cmd += ['--global', '%s=%s' % (k, v)]
         for k, v in u.get('ptypes', {}).items(): cmd += ['--ptype', '%s=%s' % (k, v)]
+        for k, v in u.get('perms', {}).items(): cmd += ['--perm', '%s=%s' % (k, v)]
         r = sh(cmd, timeout=300)
         res['cmds'].append('ir2c ' + ' '.join(cmd[3:]))
         if r['rc'] != 0:
